@@ -103,6 +103,9 @@ BurstOk(r) ==
   /\ nev = r.n                                       \* one bucket update per request: none lost, none doubled
   /\ c.sent = r.full /\ r.full + r.limited = r.n
   /\ (c.refills = 0 => r.full = Min(r.n, r.rate * r.window))
+  \* a burst that was over within 900 ms (thread start to last join) cannot have seen a whole second pass on the stream's
+  \* own clock, which starts with its first response: no refill, however old the bucket it took over was
+  /\ (r.wall_ms < 900 => c.refills = 0)
 
 VARIABLES l, cfg, shift, table, names, skipping, bad, nbad
 vars == <<l, cfg, shift, table, names, skipping, bad, nbad>>
